@@ -2,7 +2,8 @@
 
 theorems      : coq/Props/C10.v (substitution lemma for ONE simultaneous pass, exchange is an involution, sequential
                 substitution is not; own arguments; regions / non-arguments untouched; unknown keyword refused;
-                call = simultaneous substitution (partial + refuted); symmetry flag sound for every interpretation)
+                a successful call IS one simultaneous substitution with one value per argument (full strength; the code
+                before the repairs as historical lemmas); symmetry flag sound for every interpretation)
 correspondence: real LinearForm / BilinearForm.__call__ and .is_symmetric on generated forms and calls vs the model
                 (coq/Model/CallM.v), decided inside Coq: (1) structurally modulo the canonical order of commutative
                 nodes, (2) on the lowered integrands by the verified checker tequiv after a terminal-level
@@ -354,6 +355,28 @@ def gen_calls(rng, form, thorough):
             ks = rng.sample(free, min(len(free), rng.choice([1, 1, 2])))
             base = rng.choice([ownv, [F(n) for n in fr]] + ([[F(n) for n in S + T]] if exchangeable else []))
             add("kw", positional(base), [(n, kw_value(n)) for n in ks], lower=True)
+        # positional VALUES that mention a free field / constant which a keyword of the same call replaces
+        # (a(f, v, f=g), a(u + f, v, f=g), a(u, c*v, c=k, f=g)): the value must keep the OLD symbol
+        for _ in range(2 if thorough else 1):
+            usable = [n for n in free if n in free_consts or any(ISVEC[o] == ISVEC[n] for o in own)]
+            if not usable:
+                break
+            first = rng.choice(usable)
+            ks = [first] + [n for n in rng.sample(free, min(len(free), rng.choice([1, 1, 2, 3]))) if n != first][:rng.choice([0, 0, 1, 2])]
+            base = list(rng.choice([own, fr, part]))
+            vals = [F(n) for n in base]
+            for n in ks:
+                if n in free_consts:
+                    i = rng.randrange(len(own))
+                    vals[i] = MUL(C(n), vals[i]) if rng.random() < 0.7 else ADD(vals[i], MUL(C(n), F(fr[i])))
+                else:
+                    slots = [i for i, o in enumerate(own) if ISVEC[o] == ISVEC[n]]
+                    if not slots:
+                        continue
+                    i = rng.choice(slots)
+                    c = rng.random()
+                    vals[i] = F(n) if c < 0.4 else ADD(vals[i], F(n)) if c < 0.75 else ADD(MUL(N(2), F(n)), MUL(N(-1), vals[i]))
+            add("arg_mentions_kw", positional(vals), [(n, kw_value(n)) for n in ks], lower=True)
         # hazard A: a keyword value that mentions a declared argument which the same call replaces
         if rng.random() < (0.35 if not thorough else 0.5):
             cands = [n for n in free_fields if any(ISVEC[o] == ISVEC[n] for o in own)]
@@ -453,6 +476,38 @@ def planted_cases():
     c3["calls"] = [{"id": 0, "kind": "exchange", "pos": [{"val": G}, {"val": E}], "kw": [], "lower": True,
                     "direct": [["E", "G"], ["G", "E"]]}]
     cases.append(c3)
+    # positional values mentioning a free symbol that a keyword of the same call replaces (scalar, vector, product
+    # space, linear; one and several keywords): a(f, v, f=g), a(u+f, v, f=g), a(u, c*v, c=k, f=g), ...
+    f, g, A, B = F("f"), F("g"), F("A"), F("B")
+    sc = dict(base, label="arg-mentions-kw:scalar",
+              integrals=[{"region": {"t": "dom"}, "e": ADD(MUL(C("c"), f, gg), MUL(f, u, d1(v)))},
+                         {"region": {"t": "bnd", "axis": 1, "ext": -1}, "e": MUL(C("k"), f, u, v)}], seed=3101)
+    sc["calls"] = [{"id": 0, "kind": "arg_mentions_kw", "pos": [{"val": f}, {"val": v}], "kw": [["f", g]], "lower": True},
+                   {"id": 1, "kind": "arg_mentions_kw", "pos": [{"val": ADD(u, f)}, {"val": v}], "kw": [["f", g]], "lower": True},
+                   {"id": 2, "kind": "arg_mentions_kw", "pos": [{"val": u}, {"val": MUL(C("c"), v)}],
+                    "kw": [["c", C("k")], ["f", g]], "lower": True},
+                   {"id": 3, "kind": "arg_mentions_kw", "pos": [{"val": F("w")}, {"val": MUL(C("c"), F("z"))}],
+                    "kw": [["c", C("mu")], ["k", MUL(N(2), C("c"))], ["f", ADD(g, F("w"))]], "lower": True},
+                   {"id": 4, "kind": "arg_mentions_kw", "pos": [{"val": f}, {"val": f}], "kw": [["f", N(3)]], "lower": True}]
+    cases.append(sc)
+    vc = dict(vec, label="arg-mentions-kw:vector",
+              integrals=[{"region": {"t": "dom"}, "e": ADD(MUL(OP("dot", A, E), OP("div", G)), MUL(C("c"), OP("dot", E, G)))}], seed=3102)
+    vc["calls"] = [{"id": 0, "kind": "arg_mentions_kw", "pos": [{"val": A}, {"val": G}], "kw": [["A", B]], "lower": True},
+                   {"id": 1, "kind": "arg_mentions_kw", "pos": [{"val": ADD(E, A)}, {"val": MUL(C("c"), G)}],
+                    "kw": [["A", B], ["c", N(5)]], "lower": True}]
+    cases.append(vc)
+    pc = dict(base, shape="prod_sv", trials=["u", "E"], tests=["v", "G"], label="arg-mentions-kw:product",
+              integrals=[{"region": {"t": "dom"}, "e": ADD(MUL(f, u, v), OP("dot", E, G), MUL(OP("div", E), v), MUL(u, OP("dot", A, G)))}], seed=3103)
+    pc["calls"] = [{"id": 0, "kind": "arg_mentions_kw", "pos": [{"seq": [f, A], "as": "tuple"}, {"seq": [v, G], "as": "list"}],
+                    "kw": [["f", g]], "lower": True},
+                   {"id": 1, "kind": "arg_mentions_kw", "pos": [{"seq": [ADD(u, f), A], "as": "tuple"}, {"seq": [v, ADD(G, A)], "as": "tuple"}],
+                    "kw": [["f", g], ["A", B]], "lower": True}]
+    cases.append(pc)
+    ln = dict(base, kind="linear", trials=[], tests=["v"], label="arg-mentions-kw:linear",
+              integrals=[{"region": {"t": "dom"}, "e": ADD(MUL(f, v), MUL(C("c"), d1(v)))}], seed=3104)
+    ln["calls"] = [{"id": 0, "kind": "arg_mentions_kw", "pos": [{"val": f}], "kw": [["f", g]], "lower": True},
+                   {"id": 1, "kind": "arg_mentions_kw", "pos": [{"val": MUL(C("c"), f)}], "kw": [["f", g], ["c", C("k")]], "lower": True}]
+    cases.append(ln)
     # witnesses of Props/C10.v: l(w, f=v) and a(u, v, c=k, k=c)
     lin = dict(base, kind="linear", trials=[], tests=["v"], label="witness:l(w,f=v)",
                integrals=[{"region": {"t": "dom"}, "e": MUL(F("f"), v)}], seed=99)
@@ -513,23 +568,19 @@ def coq_parg(p):
 def coq_result(out):
     if "body" in out:
         return "(Ok %s)" % coq_body(out["body"])
-    return {"type": "(Err ErrArity)", "value": "(Err ErrUnknownKw)"}.get(out.get("err"))
+    return None        # refusals are compared as an enum through chk_err
 
 
 HEADER = """From Coq Require Import String ZArith List Bool Arith.
 From V Require Import Core.Terminal Core.SExpr Model.CallM Proofs.CallP.
 Import ListNotations. Open Scope string_scope. Open Scope list_scope.
 Set Printing Width 1000000. Set Printing Depth 1000000.
-(* bit 0: differs from the faithful model; bit 1: differs from the simultaneous specification;
-   bit 2: the guard of C10_call_simultaneous_partial does not hold *)
+(* bit 0: differs from the model [call]; bit 1: differs from [call_before_fix] (the code before the repairs; diagnostic) *)
 Definition chk1 (a : form) (pos : list parg) (kw : list (string * expr)) (r : result) : nat :=
-  (if result_eqb (call a pos kw) r then 0 else 1) + (if result_eqb (call_sim a pos kw) r then 0 else 2) +
-  match values_of a pos, kw_dict (free_vars a) kw with
-  | Some vals, Some d => if cleanb d (combine (vars a) vals) then 0 else 4
-  | _, _ => 0
-  end.
+  (if result_eqb (call a pos kw) r then 0 else 1) + (if result_eqb (call_before_fix a pos kw) r then 0 else 2).
+(* the model's verdict as an enum: 0 = a form, 1 = TypeError of the signature, 2 = unknown keyword, 3 = wrong number of values *)
 Definition chk_err (a : form) (pos : list parg) (kw : list (string * expr)) : nat :=
-  match call a pos kw with Ok _ => 0 | Err ErrArity => 1 | Err ErrUnknownKw => 2 end.
+  match call a pos kw with Ok _ => 0 | Err ErrArity => 1 | Err ErrUnknownKw => 2 | Err ErrCount => 3 end.
 (* lowered integrands: 0 = proved equal to the simultaneous substitution; 1 = not proved; 2 = model refuses *)
 Fixpoint stages (l : list (list (string * list texpr) * list (string * texpr))) (t : texpr) : option texpr :=
   match l with
@@ -632,7 +683,8 @@ def tsub_data(case, res, out):
     stage = lambda es: "(%s, %s)" % (coq_list([x for k, x in es if k == "f"]), coq_list([x for k, x in es if k == "c"]))
     sim = coq_list([stage(kws + pos)])
     seq = coq_list([stage([e]) for e in kws] + [stage(pos)])
-    return sim, (seq if kws else None)
+    del seq
+    return sim, None
 
 
 # ------------------------------------------------------------------ oracle helpers on c-trees
@@ -720,6 +772,19 @@ def leaves_oracle(case, res, out):
             return "after a renaming call the integration regions differ"
         del keep0
     return None
+
+
+def arg_value_mentions_kw_key(res, out):
+    """a positional value mentions a free symbol that a keyword of the same call replaces"""
+    free = res["free"]
+    keys = set()
+    for n, _ in out["kw"]:
+        keys.add(json.dumps({"l": "const", "n": n}, sort_keys=True) if n in free["consts"] else leaf_key(n, ISVEC.get(n, False)))
+    for p in out["pos"]:
+        for t in (p["seq"] if "seq" in p else [p["val"]]):
+            if set(ct_leaves(t)) & keys:
+                return True
+    return False
 
 
 def hazard_of(case, res, out):
@@ -932,14 +997,14 @@ def main(run, replay=None):
     timing["coq_cases_s"] = round(time.time() - t0, 1)
     timing["coq_checks"] = len(terms)
     # ------------------------------------------------ decide
-    stats = {"calls": 0, "model_struct_agree": 0, "spec_struct_agree": 0, "lowered_proved": 0, "lowered_unproved": 0,
+    stats = {"calls": 0, "model_struct_agree": 0, "before_fix_model_struct_agree": 0, "lowered_proved": 0, "lowered_unproved": 0,
              "lowered_unavailable": 0, "model_disagree_oracle_ok": 0, "refusals_agree": 0, "oracle_numeric_ok": 0,
              "oracle_own_ok": 0, "oracle_exchange_direct_same": 0, "oracle_exchange_direct_numeric": 0,
              "oracle_leaves_ok": 0, "flags_true": 0, "flags_false": 0, "flag_true_model_true": 0,
              "flag_true_proved_by_tequiv": 0, "flag_false_but_pointwise_symmetric": 0, "flag_model_true_impl_false": 0,
              "forms_pointwise_symmetric": 0, "forms_not_symmetric": 0, "check_linearity_off": 0, "arity_python_refused": 0,
-             "unknown_kw_refused": 0, "guard_fails": 0, "flag_raises": 0, "lowered_model_proved": 0, "impl_matches_spec_not_model": 0,
-             "arity_zip_refused_by_accident": 0}
+             "unknown_kw_refused": 0, "flag_raises": 0, "lowered_model_proved": 0,
+             "wrong_count_refused": 0, "refusals_other_kind": 0}
     call_kinds, err_kinds, unproved_kinds, not_tied = {}, {}, {}, {}
     failing = []        # (ci, call id or -1, sig, message)
     unexplained = []    # model / impl disagreements with no oracle failure
@@ -998,24 +1063,21 @@ def main(run, replay=None):
                 continue
             if "err" in out:
                 err_kinds[out["err"]] = err_kinds.get(out["err"], 0) + 1
-                m = code.get((ci, cid, "chk_err"), [None])[0] if coq_result(out) is None else None
-                if kind == "arity_python":
-                    stats["arity_python_refused"] += 1
+                m = code.get((ci, cid, "chk_err"), [None])[0]
+                want = {"arity_python": ("type", 1), "kw_unknown": ("value", 2), "arity_zip": ("value", 3)}.get(kind)
+                if want is None:
+                    failing.append((ci, cid, {"kind": "call-raises", "call": kind},
+                                    "a legitimate call raised %s: %s" % (out["err"], out.get("msg", "")), True))
                     continue
-                if kind == "kw_unknown":
-                    stats["unknown_kw_refused"] += 1
-                    c1 = code.get((ci, cid, "chk1"), [None])[0]
-                    if c1 is not None and c1 & 1 == 0:
-                        stats["refusals_agree"] += 1
-                    elif out["err"] != "value":
-                        unexplained.append((ci, cid, "refusal kind %s differs from the model's" % out["err"]))
-                    continue
-                if kind == "arity_zip":
-                    stats["arity_zip_refused_by_accident"] += 1      # a refusal is what the property asks for
-                    continue
-                failing.append((ci, cid, {"kind": "call-raises", "call": kind},
-                                "a legitimate call raised %s: %s" % (out["err"], out.get("msg", "")), True))
-                del m
+                stats[{"arity_python": "arity_python_refused", "kw_unknown": "unknown_kw_refused",
+                       "arity_zip": "wrong_count_refused"}[kind]] += 1
+                if out["err"] == want[0] and m == want[1]:
+                    stats["refusals_agree"] += 1
+                elif m in (1, 2, 3):
+                    # refused by both, with another exception class (e.g. both an unknown keyword and a wrong count)
+                    stats["refusals_other_kind"] += 1
+                else:
+                    unexplained.append((ci, cid, "the implementation refuses (%s), the model does not" % out["err"]))
                 continue
             # a body was returned
             if kind == "arity_python":
@@ -1035,12 +1097,9 @@ def main(run, replay=None):
             c1 = code.get((ci, cid, "chk1"), [None])[0]
             c2 = code.get((ci, cid, "chk2"))
             c2s = code.get((ci, cid, "chk2seq"), c2)
-            if c1 is not None and c1 & 4:
-                stats["guard_fails"] += 1
             model_ok = c1 is not None and c1 & 1 == 0
-            spec_ok = c1 is not None and c1 & 2 == 0
             stats["model_struct_agree"] += model_ok
-            stats["spec_struct_agree"] += spec_ok
+            stats["before_fix_model_struct_agree"] += (c1 is not None and c1 & 2 == 0)
             low_ok = bool(c2) and all(x == 0 for x in c2)
             if c2 is None:
                 stats["lowered_unavailable"] += 1
@@ -1058,9 +1117,14 @@ def main(run, replay=None):
             if orc.get("ok") is False:
                 hz = hazard_of(c, r, out)
                 if hz and orc.get("sequential_predicts_got"):
+                    # the behaviour of the code before repair 8f04492 (known_findings: fixed)
                     sig = {"kind": "keyword-value-resubstituted", "by": hz}
                     msg = ("a keyword value was substituted again by the %s that the same call replaces (sequential instead of "
                            "simultaneous substitution)" % ("following keywords" if hz == "keywords" else "arguments"))
+                elif arg_value_mentions_kw_key(r, out):
+                    sig = {"kind": "argument-value-resubstituted", "by": "keywords"}
+                    msg = ("a free field / constant that enters through a positional VALUE was replaced by a keyword of the same "
+                           "call (two passes instead of one simultaneous substitution)")
                 else:
                     sig = {"kind": "wrong-substitution", "call": kind}
                     msg = "the called form is not the original evaluated at the substituted arguments"
@@ -1094,11 +1158,6 @@ def main(run, replay=None):
                 continue
             low_model_ok = bool(c2s) and all(x == 0 for x in c2s)
             stats["lowered_model_proved"] += low_model_ok
-            if not (model_ok or low_model_ok) and (spec_ok or low_ok):
-                # the implementation does ONE simultaneous substitution where the faithful model re-substitutes a keyword
-                # value: the property holds (oracle ok); the model is stale (the recorded defect has been repaired)
-                stats["impl_matches_spec_not_model"] += 1
-                continue
             if not (model_ok or low_model_ok):
                 stats["model_disagree_oracle_ok"] += 1
                 why = "lowering unavailable" if c2s is None else "terminal substitution refused" if any(x == 2 for x in c2s) else "not proved"
@@ -1152,10 +1211,6 @@ def main(run, replay=None):
                    observed=[o for o in results[ci]["calls"] if o["id"] == cid], required="call / call_sim of coq/Model/CallM.v",
                    python=python_replay(c), found_input=False,
                    theorem_or_case="correspondence CallM.call vs sympde.expr.expr.__call__")
-    if stats["impl_matches_spec_not_model"]:
-        run.notes.append("%d call(s): the implementation agrees with the simultaneous specification call_sim where the faithful "
-                         "model call re-substitutes a keyword value - the recorded keyword defect looks repaired; switch the model "
-                         "to call_sim and state C10_call_simultaneous at full strength" % stats["impl_matches_spec_not_model"])
     if not proof_ok:
         fo = run.failing_obligation()
         run.report({"kind": "proof"}, "a proof obligation of Props/C10.v no longer checks", fo,
@@ -1226,7 +1281,7 @@ def shrink(run, case, sig, cid):
             s = res.get("sym", {})
             return bool(s.get("flag")) and s.get("pointwise_symmetric") is False and s.get("integral_changes") is not False
         for o in res["calls"]:
-            if kind in ("keyword-value-resubstituted", "wrong-substitution"):
+            if kind in ("keyword-value-resubstituted", "wrong-substitution", "argument-value-resubstituted"):
                 if o.get("oracle", {}).get("ok") is False:
                     return True
             elif kind in ("arity-silently-accepted", "unknown-keyword-accepted"):
